@@ -487,8 +487,8 @@ def ApiSpace.has : ApiSpace → ApiObs → Bool
 
 /-- the observations handed out during one episode (reset, then one per step): `update_agents` lets the observation manager
 observe (the object advances), then `_get_obs` flattens against the space of the object as it is NOW -/
-def EpisodeCfg.run (capture : Bool) (e : EpisodeCfg) : Obs → List SimState → List ApiObs
+def EpisodeCfg.run (e : EpisodeCfg) : Obs → List SimState → List ApiObs
   | _, [] => []
-  | o, st :: rest => e.getObs (o.next capture st) (o.val capture st) :: EpisodeCfg.run capture e (o.next capture st) rest
+  | o, st :: rest => e.getObs (o.next st) (o.val st) :: EpisodeCfg.run e (o.next st) rest
 
 end Primaite.Obs
